@@ -1,8 +1,158 @@
-(** C12 — property theorems only. *)
-From Coq Require Import List ZArith NArith Bool.
-From Kardia Require Import Base.Int64 C12.Model Generated.C12Facts.
+(** C12 — property theorems only.  Each is closed by [exact] of a lemma proved in Proofs*.v
+    and followed by [Print Assumptions]. *)
+From Coq Require Import List ZArith NArith Bool Permutation.
+From Kardia Require Import Base.Int64 C12.Model C12.Spec C12.ProofsSort C12.ProofsUpdate C12.ProofsSpec
+     C12.ProofsFair C12.ProofsRefine C12.Open Generated.C12Facts.
+Import ListNotations.
 Local Open Scope Z_scope.
 
-Theorem C12_placeholder : max_total_voting_power = max_total_voting_power.
-Proof. exact eq_refl. Qed.
-Print Assumptions C12_placeholder.
+(** the constants of the source (regenerated on every run) are the ones the proofs use *)
+Theorem C12_source_constants :
+  max_total_voting_power = Z.quot max_int64 8 /\ priority_window_size_factor = 2 /\
+  go_max_int64 = max_int64 /\ go_min_int64 = min_int64 /\ B0 = 3 * 2 ^ 60 /\
+  2 * B0 + 2 * max_total_voting_power <= max_int64.
+Proof. exact facts_fit. Qed.
+Print Assumptions C12_source_constants.
+
+(** UpdateWithChangeSet is all-or-nothing: whenever it returns an error, the set is the one
+    that was passed in (at most the zero cache of TotalVotingPower() has been filled) *)
+Theorem C12_update_atomic :
+  forall s cs allow s' e,
+    update_with_change_set s cs allow = Some (s', e) -> e <> UOk ->
+    s' = s \/ (vs_total s = 0 /\ update_total s = Some s').
+Proof. exact update_atomic. Qed.
+Print Assumptions C12_update_atomic.
+
+Theorem C12_update_atomic_observable :
+  forall s cs allow s' e,
+    update_with_change_set s cs allow = Some (s', e) -> e <> UOk ->
+    vs_vals s' = vs_vals s /\ vs_proposer s' = vs_proposer s.
+Proof. exact update_atomic_fields. Qed.
+Print Assumptions C12_update_atomic_observable.
+
+(** the result does not depend on the order of the change set: permuted change sets give the
+    same outcome (same set, same error class, same panic), or both are rejected and leave the
+    set as it was (the error class of a set with several defects may differ) *)
+Theorem C12_update_order_independent :
+  forall s cs cs' allow,
+    Permutation cs cs' ->
+    update_with_change_set s cs allow = update_with_change_set s cs' allow \/
+    (exists e e', update_with_change_set s cs allow = Some (s, e) /\
+                  update_with_change_set s cs' allow = Some (s, e') /\ e <> UOk /\ e' <> UOk).
+Proof. exact update_perm. Qed.
+Print Assumptions C12_update_order_independent.
+
+(** duplicates, the zero address, negative powers and powers above the cap are rejected and
+    the set is untouched *)
+Theorem C12_update_rejects_malformed :
+  forall s cs allow,
+    cs <> [] ->
+    ~ (NoDup (map v_addr cs) /\
+       Forall (fun c => v_addr c <> 0%N /\ 0 <= v_power c <= max_total_voting_power) cs) ->
+    exists e, update_with_change_set s cs allow = Some (s, e) /\ e <> UOk.
+Proof. exact update_rejects_invalid. Qed.
+Print Assumptions C12_update_rejects_malformed.
+
+(** removal of a validator that is not in the set is rejected *)
+Theorem C12_update_rejects_unknown_removal :
+  forall s cs c,
+    valid_changes cs -> In c cs -> v_power c = 0 -> get_by_addr (v_addr c) (vs_vals s) = None ->
+    update_with_change_set s cs true = Some (s, UUnknown).
+Proof. exact update_rejects_unknown. Qed.
+Print Assumptions C12_update_rejects_unknown_removal.
+
+(** a successful update never leaves the set empty *)
+Theorem C12_update_never_empties :
+  forall s cs allow s',
+    cs <> [] -> update_with_change_set s cs allow = Some (s', UOk) -> vs_vals s' <> [].
+Proof. exact update_ok_nonempty. Qed.
+Print Assumptions C12_update_never_empties.
+
+(** specification level (unbounded integers): after the renormalisation of a call the
+    priorities are within a window of 2T, their sum is in [0, n), each is within [-2T, 2T] *)
+Theorem C12_window_and_centring_spec :
+  forall T l l1 l2,
+    0 < T -> l <> [] -> spec_rescale T l l1 -> spec_centre l1 l2 ->
+    within_window (2 * T) l2 /\ 0 <= sum_priorities l2 < Z.of_nat (length l2) /\
+    (forall v, In v l2 -> - (2 * T) <= v_prio v <= 2 * T).
+Proof. exact spec_renormalise. Qed.
+Print Assumptions C12_window_and_centring_spec.
+
+(** the int64 code (RescalePriorities as repaired, shiftByAvgProposerPriority) achieves it:
+    no panic, no wrap, no clipping, for every set below the cap with priorities within
+    3 * 2^60 *)
+Theorem C12_window_and_centring :
+  forall l T,
+    l <> [] -> 0 < T <= max_total_voting_power -> bounded B0 l ->
+    exists l1 l2,
+      rescale l (wrap64 (priority_window_size_factor * T)) = Some l1 /\ shift_by_avg l1 = Some l2 /\
+      spec_rescale T l l1 /\ spec_centre l1 l2 /\
+      within_window (2 * T) l2 /\ 0 <= sum_prio l2 < Z.of_nat (length l2) /\ bounded (2 * T) l2 /\
+      map v_addr l2 = map v_addr l /\ map v_power l2 = map v_power l.
+Proof. exact model_renormalise. Qed.
+Print Assumptions C12_window_and_centring.
+
+(** one round of the inner loop keeps the sum of the priorities *)
+Theorem C12_round_keeps_sum :
+  forall s B s' m,
+    wf_set s -> bounded B (vs_vals s) -> 0 <= B -> B + total_power (vs_vals s) <= max_int64 ->
+    increment_once s = Some (s', m) -> sum_prio (vs_vals s') = sum_prio (vs_vals s).
+Proof. exact increment_once_sum. Qed.
+Print Assumptions C12_round_keeps_sum.
+
+(** refinement and absence of overflow for IncrementProposerPriority(times): on a well-formed
+    set (non-empty, distinct addresses, positive powers, total <= cap, cache consistent) with
+    priorities within B0 = 3 * 2^60 and (times + 2) * T <= B0 (always true for times = 1), the
+    int64 code does not panic and computes exactly the specified weighted round-robin over
+    unbounded integers; the proposer it records is the proposer of the last round and a member
+    of the set; the result is again well-formed and within the bound *)
+Theorem C12_increment_refines_spec_no_overflow :
+  forall s (times : positive),
+    wf_set s -> bounded B0 (vs_vals s) ->
+    (Z.pos times + 2) * total_power (vs_vals s) <= B0 ->
+    exists s' props a p,
+      increment s (Z.pos times) = Some s' /\
+      spec_increment (vs_vals s) (Pos.to_nat times) (vs_vals s') props /\
+      last props 0%N = a /\ vs_proposer s' = Some (a, p) /\
+      (exists m0, In m0 (vs_vals s') /\ v_addr m0 = a /\ v_power m0 = p) /\
+      wf_set s' /\ vs_total s' = vs_total s /\
+      bounded ((Z.pos times + 2) * total_power (vs_vals s)) (vs_vals s').
+Proof. exact increment_refines. Qed.
+Print Assumptions C12_increment_refines_spec_no_overflow.
+
+(** the rounds of a call keep the sum of priorities (specification) *)
+Theorem C12_rounds_keep_sum_spec :
+  forall k l l' props,
+    NoDup (map v_addr l) -> spec_rounds k l l' props -> sum_priorities l' = sum_priorities l.
+Proof. exact spec_rounds_sum. Qed.
+Print Assumptions C12_rounds_keep_sum_spec.
+
+(** share accounting: after k rounds, priority = old priority + k * power - T * (times proposed) *)
+Theorem C12_share_accounting :
+  forall k l l' props,
+    spec_rounds k l l' props ->
+    Forall2 (accounted (total_power l) k props) l l' /\ length props = k.
+Proof. exact spec_rounds_accounted. Qed.
+Print Assumptions C12_share_accounting.
+
+(** proportionality inside a call: |T * count_i - k * p_i| <= 2(n+1)T + n *)
+Theorem C12_share_within_call :
+  forall l k l' props,
+    l <> [] -> NoDup (map v_addr l) -> (forall v, In v l -> 0 < v_power v) ->
+    spec_increment l k l' props ->
+    forall v, In v l ->
+      Z.abs (total_power l * count (v_addr v) props - Z.of_nat k * v_power v)
+      <= 2 * (Z.of_nat (length l) + 1) * total_power l + Z.of_nat (length l).
+Proof. exact spec_share. Qed.
+Print Assumptions C12_share_within_call.
+
+(** no starvation inside a call *)
+Theorem C12_no_starvation_within_call :
+  forall l k l' props,
+    l <> [] -> NoDup (map v_addr l) -> (forall v, In v l -> 0 < v_power v) ->
+    spec_increment l k l' props ->
+    forall v, In v l ->
+      2 * (Z.of_nat (length l) + 1) * total_power l + Z.of_nat (length l) < Z.of_nat k * v_power v ->
+      In (v_addr v) props.
+Proof. exact spec_no_starvation. Qed.
+Print Assumptions C12_no_starvation_within_call.
